@@ -12,15 +12,15 @@ def main():
     extra = c01.generic_part(V, core.tier(), core.seed() + 17, checks=("C03",))
     # nets dense in controllers: several pressure / flow controllers per junction, in and out of service
     ctl = dict(MaxJ="= 3", MaxE="= 4", MaxN="= 2", MaxPV="= 0", Kinds="<- KindsCtl", NKinds="<- NKindsCore", TogJ="= FALSE")
-    e2 = c01.generic_part(V, core.tier(), core.seed() + 29, checks=("C03",), emit=ctl)
+    e2 = c01.generic_part(V, core.tier(), core.seed() + 29, checks=("C03",), emit=ctl, cap_quick=600)
     extra.update({k + "_controller_nets": v for k, v in e2.items()})
     # gas nets with compressors and junctions at different heights (absolute pressure ratio with the ambient pressure of each end)
     gasc = dict(MaxJ="= 4", MaxE="= 4", MaxN="= 3", MaxPV="= 0", Kinds="<- KindsGas", NKinds="<- NKindsCore", TogJ="= FALSE")
-    e3 = c01.generic_part(V, core.tier(), core.seed() + 41, checks=("C03",), emit=gasc, fluid="lgas", heights=True)
+    e3 = c01.generic_part(V, core.tier(), core.seed() + 41, checks=("C03",), emit=gasc, fluid="lgas", heights=True, cap_quick=600)
     extra.update({k + "_compressor_nets": v for k, v in e3.items()})
     # nets dense in feeders: up to four external grids, several on one junction in every table order (mean of their pressures)
     feed = dict(MaxJ="= 3", MaxE="= 2", MaxN="= 4", MaxPV="= 0", Kinds="<- KindsPipe", NKinds="<- NKindsFeed", TogJ="= FALSE")
-    e4 = c01.generic_part(V, core.tier(), core.seed() + 53, checks=("C03",), emit=feed, fluid="water")
+    e4 = c01.generic_part(V, core.tier(), core.seed() + 53, checks=("C03",), emit=feed, fluid="water", cap_quick=600)
     extra.update({k + "_feeder_nets": v for k, v in e4.items()})
     rc1 = V.finish()
     rc2 = ref.run_check("C03", RULE, extra_cov=extra, prior_violations=len(V.violations))
